@@ -376,3 +376,630 @@ static bool line_ok_for(Cls c, int l) {
     default: return false;
   }
 }
+
+// ------------------------------------------------------------------------
+// C06
+// ------------------------------------------------------------------------
+static const unsigned MASKS[] = {
+    0xFFFFFFFFu,
+    VBI_SLICED_TELETEXT_B_625 | VBI_SLICED_VPS | VBI_SLICED_WSS_625 | VBI_SLICED_CAPTION_625 | VBI_SLICED_VBI_625,
+    VBI_SLICED_TELETEXT_B_625,
+    0xFFFFFFFFu & ~(unsigned)VBI_SLICED_WSS_625,
+    0xFFFFFFFFu & ~(unsigned)VBI_SLICED_TELETEXT_B_625,
+    VBI_SLICED_TELETEXT_B_L10_625 | VBI_SLICED_VPS,
+    0xFFFFFFFFu & ~(unsigned)VBI_SLICED_VBI_625,
+    VBI_SLICED_VPS | VBI_SLICED_CAPTION_625_F1 | VBI_SLICED_VBI_625};
+static const int NMASKS = (int)(sizeof MASKS / sizeof MASKS[0]);
+static const int DI_TABLE[] = {0x10, 0x11, 0x1F, 0x99, 0x9A, 0x9B, 0x15, 0x99, /* invalid: */ 0x00, 0x0F, 0x20, 0x98, 0x9C, 0xFF, 0x100 + 0x10};
+static const int NDI = (int)(sizeof DI_TABLE / sizeof DI_TABLE[0]);
+static bool di_valid(int d) { return (d >= 0x10 && d <= 0x1F) || (d >= 0x99 && d <= 0x9B); }
+
+enum Verdict { V_ACCEPT, V_REJECT, V_EITHER };
+
+struct C06 : World {
+  const char* name() const override { return "c06"; }
+  const char* property() const override { return "C06"; }
+
+  // Inputs that trigger defects already reported (see the final report of this world's author); the
+  // oracle is unchanged and the replay files keep failing, only generate() steers around them so
+  // that the rest of the space stays explorable.  Set to false once /repo is repaired.
+  static constexpr bool AVOID_RAW_OVERFLOW_STUCK = true;   // raw line that does not fit -> mux rejects every later frame
+  static constexpr bool AVOID_RAW_ONE_BYTE_GAP = true;     // raw line + one byte stuffing gap -> assert in encode_stuffing
+  static constexpr bool AVOID_ZERO_LINE_AFTER_RAW = true;  // Teletext line 0 after a raw line of field 2 -> wrong field_parity
+  static constexpr bool AVOID_TS_FIRST_SINGLE_PACKET = true;  // TS demux drops a 184 byte PES packet met while synchronising
+
+  Plan generate(uint64_t seed, const std::string& tier) override {
+    Plan p; p.world = name(); p.seed = seed;
+    Rng r(seed, "plan");
+    p.knobs["sched_seed"] = (int64_t)(r.next() >> 1);
+    p.knobs["policy"] = (int64_t)r.below(3);
+    p.knobs["pparam"] = (p.knobs["policy"] == 1) ? 30 + (int64_t)r.below(65) : (int64_t)r.below(4);
+    bool ts = r.chance(1, 2);
+    p.knobs["ts"] = ts;
+    static const int pids[] = {0x10, 0x11, 0x100, 0x1FFE, 0x47, 0x747, 0x1234, 0x0FFF};
+    p.knobs["pid"] = r.chance(1, 2) ? pids[r.below(8)] : 0x10 + (int64_t)r.below(0x1FFF - 0x10);
+    p.knobs["mux_nocb"] = r.chance(1, 8);
+    p.knobs["dx_cor"] = r.chance(1, 2);
+    p.knobs["xfer_seed"] = (int64_t)(r.next() >> 1);
+    p.knobs["xfer_mode"] = (int64_t)r.below(6);
+    p.knobs["pay_mode"] = r.chance(1, 2) ? 0 : (int64_t)r.below(4);
+    bool with_raw = r.chance(1, 3);
+    int bpl = r.chance(1, 3) ? 720 : r.chance(1, 2) ? 1 + (int)r.below(720) : 1 + (int)r.below(300);
+    p.knobs["sp_bpl"] = bpl;
+    p.knobs["sp_offset"] = 132 + (int64_t)r.below((uint64_t)(720 - bpl + 1));
+    int c0 = (int)r.below(20), c1 = (int)r.below(20);
+    bool il = r.chance(1, 3);
+    if (il) { if (!c0) c0 = 1; c1 = c0; }
+    if (!c0 && !c1) c0 = 17;
+    p.knobs["sp_start0"] = r.chance(1, 2) ? 7 : 5 + (int64_t)r.below(8);
+    p.knobs["sp_count0"] = r.chance(1, 2) ? 17 : c0;
+    p.knobs["sp_start1"] = r.chance(1, 2) ? 320 : 318 + (int64_t)r.below(8);
+    p.knobs["sp_count1"] = r.chance(1, 2) ? (int64_t)p.knobs["sp_count0"] : c1;
+    if (il) p.knobs["sp_count1"] = p.knobs["sp_count0"];
+    if (!p.knobs["sp_count0"] && !p.knobs["sp_count1"]) p.knobs["sp_count0"] = 17;
+    p.knobs["sp_interlaced"] = il;
+    p.knobs["sp_bad"] = r.chance(1, 12) ? 1 + (int64_t)r.below(6) : 0;
+    bool invalid_frames = r.chance(1, 2);
+    bool var_cfg = r.chance(2, 3);
+    int nframes = 1 + (int)r.below(tier == "thorough" ? 24 : 10);
+    int cur_di = 0x10; int64_t cur_max = 65504;
+    auto cfg_op = [&](int what, int64_t a, int64_t b) { Op o; o.task = 0; o.kind = "cfg"; o.a = {what, a, b}; p.ops.push_back(o); };
+    if (r.chance(3, 4)) { int k = (int)r.below(8); cfg_op(0, k, 0); cur_di = DI_TABLE[k]; }
+    if (r.chance(3, 4) || (ts && AVOID_TS_FIRST_SINGLE_PACKET)) {
+      int64_t mn = 184 * (1 + (int64_t)r.below(4)), mx = mn + 184 * (int64_t)r.below(12);
+      if (ts && AVOID_TS_FIRST_SINGLE_PACKET && mn < 368) { mn = 368; if (mx < mn) mx = mn; }
+      if (r.chance(1, 10)) mx = 65504;
+      if (r.chance(1, 40)) mn = 184 * (int64_t)r.below(357);
+      cfg_op(1, mn - (int64_t)r.below(3), mx + (int64_t)r.below(3));
+      cur_max = mx < mn ? mn : mx;
+    }
+    for (int f = 0; f < nframes; f++) {
+      if (var_cfg && r.chance(1, 4)) {
+        if (r.chance(1, 2)) { int k = (int)r.below((uint64_t)NDI); cfg_op(0, k, 0); if (di_valid(DI_TABLE[k])) cur_di = DI_TABLE[k]; }
+        else {
+          int64_t mn = r.chance(1, 8) ? (int64_t)r.below(70000) : 184 * (1 + (int64_t)r.below(6)) - (int64_t)r.below(2);
+          int64_t mx = r.chance(1, 8) ? (int64_t)r.below(70000) : mn + 184 * (int64_t)r.below(10) + (int64_t)r.below(184);
+          if (ts && AVOID_TS_FIRST_SINGLE_PACKET && mn < 368) mn = 368;  // the first accepted frame may be any of them
+          cfg_op(1, mn, mx);
+          int64_t emn = mn < 184 ? 184 : mn > 65504 ? 65504 : (mn + 183) / 184 * 184;
+          int64_t emx = mx < emn ? emn : mx > 65504 ? 65504 : mx / 184 * 184;
+          cur_max = emx;
+        }
+      }
+      // lines of the frame: a sorted subset of the permitted lines, sometimes spoiled
+      std::vector<std::pair<int, int>> ls;  // line, svc
+      int style = (int)r.below(8);
+      int density = 1 + (int)r.below(6);
+      auto add_ttx = [&](int l) { ls.push_back({l, (int)r.below(3)}); };
+      for (int l = 7; l <= 23; l++) {
+        if (style == 6 && l > 12) break;           // frame confined to low lines (next one may not be recognisable)
+        if (!r.chance((unsigned)density, 6)) continue;
+        if (with_raw && r.chance(1, 6)) { ls.push_back({l, 7}); continue; }
+        if (l == 16 && r.chance(1, 2)) ls.push_back({16, 3});
+        else if (l == 21 && r.chance(1, 2)) ls.push_back({21, 5 + (int)r.below(2)});
+        else if (l == 23) { if (r.chance(2, 3)) ls.push_back({23, 4}); }
+        else add_ttx(l);
+      }
+      if (style != 5)
+        for (int l = 320; l <= 336; l++) {
+          if (style == 7 && l < 330) continue;
+          if (!r.chance((unsigned)density, 6)) continue;
+          if (with_raw && r.chance(1, 6)) { ls.push_back({l, 7}); continue; }
+          if (l <= 335) add_ttx(l);
+        }
+      if (r.chance(1, 6) && !ls.empty()) {  // undefined Teletext lines in the middle
+        int nz = 1 + (int)r.below(3);
+        for (int k = 0; k < nz; k++) {
+          size_t pos = 1 + (size_t)r.below(ls.size());
+          if (AVOID_ZERO_LINE_AFTER_RAW) { bool raw_before = false; for (size_t q = 0; q < pos; q++) if (ls[q].second == 7) raw_before = true; if (raw_before) continue; }
+          ls.insert(ls.begin() + (long)pos, {0, (int)r.below(3)});
+        }
+      }
+      if (invalid_frames && r.chance(1, 4) && !ls.empty()) {
+        size_t k = (size_t)r.below(ls.size());
+        switch (r.below(7)) {
+          case 0: if (ls.size() >= 2) std::swap(ls[k], ls[(k + 1) % ls.size()]); break;              // unsorted
+          case 1: ls.insert(ls.begin() + (long)k, ls[k]); break;                                        // duplicate line
+          case 2: ls[k].first = (int)r.below(2) ? 1 + (int)r.below(6) : 24 + (int)r.below(290); break;  // illegal line
+          case 3: ls[k].second = 8 + (int)r.below(3); break;                                            // illegal / no service
+          case 4: ls[k] = {(int)r.below(2) ? 17 : 336, 3 + (int)r.below(4)}; break;                     // service on a line it must not use
+          case 5: ls[k].first += 313; break;
+          default: ls[k].second = (int)r.below((uint64_t)NSVC); break;
+        }
+      }
+      int mask_sel = r.chance(2, 3) ? 0 : (int)r.below((uint64_t)NMASKS);
+      int rawmode = with_raw ? (r.chance(5, 6) ? 1 : (int)r.below(5)) : (r.chance(7, 8) ? 0 : (int)r.below(4));
+      if (AVOID_RAW_OVERFLOW_STUCK || AVOID_RAW_ONE_BYTE_GAP) {
+        // keep frames with raw lines clearly inside the packet and away from a one byte stuffing gap
+        bool fx = fixed_di(cur_di);
+        for (int guard = 0; guard < 64; guard++) {
+          int64_t need = 46; int nraw = 0;
+          for (auto& l : ls) {
+            if (!(SVC[l.second].id & MASKS[mask_sel])) continue;
+            Cls c = SVC[l.second].cls;
+            if (c == C_RAW) { nraw++; need += fx ? 46 * ((bpl + 39) / 40) : bpl + 6 * ((bpl + 250) / 251) + 6; }
+            else need += fx ? 46 : c == C_TTX ? 46 : c == C_VPS ? 16 : 5;
+          }
+          if (!nraw) break;
+          bool bad = (AVOID_RAW_OVERFLOW_STUCK && need + 16 > cur_max);
+          if (AVOID_RAW_ONE_BYTE_GAP && !fx) bad = true;  // the gap depends on the segmentation: use the fixed length format only
+          if (!bad) break;
+          for (size_t q = ls.size(); q-- > 0;) if (ls[q].second == 7) { ls.erase(ls.begin() + (long)q); break; }
+        }
+      }
+      for (auto& l : ls) { Op o; o.task = 0; o.kind = "ln"; o.a = {l.first, l.second, (int64_t)r.below(1000000)}; p.ops.push_back(o); }
+      Op o; o.task = 0; o.kind = "frame";
+      int64_t pts;
+      switch (r.below(6)) {
+        case 0: pts = (int64_t)r.below(4); break;
+        case 1: pts = PTS_MASK - (int64_t)r.below(4); break;
+        case 2: pts = (int64_t)(r.next()); break;  // any 64 bit value incl. negative: bits 33.. are discarded
+        case 3: pts = ((int64_t)1 << (30 + r.below(4))) - (int64_t)r.below(2); break;
+        default: pts = (int64_t)(r.next() & (uint64_t)PTS_MASK); break;
+      }
+      o.a = {pts, r.chance(1, 2), mask_sel, (int64_t)r.below(600), rawmode};
+      p.ops.push_back(o);
+    }
+    return p;
+  }
+
+  struct Cfg { unsigned di = 0x10; unsigned min = 184, max = 65504; };
+  struct Seg { std::vector<Line> lines; int64_t pts; bool may_merge; };
+
+  struct St {
+    RunCtx* ctx; Sched* sched;
+    vbi_dvb_mux* mx = nullptr;
+    bool ts = false; unsigned pid = 0;
+    Bytes frame_bytes;  // bytes emitted for the frame being fed
+    Bytes pipe; size_t pipe_rd = 0;
+    bool in_feed = false;
+    Task* transport = nullptr; bool transport_waiting = false; bool producer_done = false;
+  };
+
+  static vbi_bool mux_cb(vbi_dvb_mux*, void* ud, const uint8_t* packet, unsigned size) {
+    HarnessScope hs;
+    St* s = (St*)ud;
+    if (!s->in_feed) s->ctx->fail("oracle:mux-callback", "callback outside vbi_dvb_mux_feed");
+    if (s->ts && size != 188) s->ctx->fail("oracle:mux-callback", "TS mode callback with %u bytes", size);
+    s->frame_bytes.append((const char*)packet, size);
+    s->pipe.append((const char*)packet, size);
+    s->ctx->log("mux cb %u bytes", size);
+    return TRUE;
+  }
+
+  static size_t cor_bufsize(int sel, int k) {
+    uint64_t h = hash_mix((uint64_t)sel * 7919u + 13, (uint64_t)k);
+    if (k > 3000) return 4096;  // a 64 KiB packet is not drained byte by byte
+    switch (((sel % 6) + 6) % 6) {
+      case 0: return 1;
+      case 1: return 1 + h % 8;
+      case 2: return 188;
+      case 3: return 184 - (size_t)(sel % 5) + (size_t)(h % 9);
+      case 4: return 1 + h % 4096;
+      default: return 70000;
+    }
+  }
+
+  void run(const Plan& plan, RunCtx& ctx) override {
+    alloc_track_reset();
+    St st; st.ctx = &ctx;
+    Sched sched(ctx, (uint64_t)plan.knob("sched_seed", (int64_t)plan.seed), (Policy)(((plan.knob("policy") % 3) + 3) % 3), (int)plan.knob("pparam"));
+    st.sched = &sched;
+    st.ts = plan.knob("ts") & 1;
+    st.pid = (unsigned)(llabs(plan.knob("pid", 0x100)) % 0x2000);
+    if (st.pid < 0x10) st.pid += 0x10;
+    if (st.pid > 0x1FFE) st.pid = 0x1FFE;
+    bool mux_nocb = plan.knob("mux_nocb") & 1;
+    bool dx_cor = plan.knob("dx_cor") & 1;
+    int pay_mode = (int)(llabs(plan.knob("pay_mode")) % 4);
+    {
+      SutScope ss;
+      st.mx = st.ts ? vbi_dvb_ts_mux_new(st.pid, mux_nocb ? nullptr : mux_cb, &st) : vbi_dvb_pes_mux_new(mux_nocb ? nullptr : mux_cb, &st);
+    }
+    Sink sink;
+    if (!st.mx || !sink.open(&ctx, st.ts, st.pid, dx_cor)) { ctx.fail("harness:new", "constructors failed"); return; }
+    ctx.count(st.ts ? "mode_ts" : "mode_pes");
+    ctx.count(dx_cor ? "demux_cor" : "demux_feed");
+
+    // ---- raw VBI image and sampling parameters
+    vbi_sampling_par sp; memset(&sp, 0, sizeof sp);
+    int bpl = 1 + (int)(llabs(plan.knob("sp_bpl", 720) - 1) % 720);
+    int off = 132 + (int)(llabs(plan.knob("sp_offset", 132) - 132) % (720 - bpl + 1));
+    sp.scanning = 625; sp.sampling_format = VBI_PIXFMT_YUV420; sp.sampling_rate = 13500000;
+    sp.bytes_per_line = bpl; sp.offset = off;
+    sp.start[0] = 5 + (int)(llabs(plan.knob("sp_start0", 7) - 5) % 8); sp.count[0] = (int)(llabs(plan.knob("sp_count0", 17)) % 20);
+    sp.start[1] = 318 + (int)(llabs(plan.knob("sp_start1", 320) - 318) % 8); sp.count[1] = (int)(llabs(plan.knob("sp_count1", 17)) % 20);
+    sp.interlaced = plan.knob("sp_interlaced") & 1;
+    if (sp.interlaced) { if (!sp.count[0]) sp.count[0] = 1; sp.count[1] = sp.count[0]; }
+    if (!sp.count[0] && !sp.count[1]) sp.count[0] = 17;
+    sp.synchronous = TRUE;
+    vbi_sampling_par sp_bad = sp;
+    int bad_kind = (int)(llabs(plan.knob("sp_bad")) % 7);
+    switch (bad_kind) {
+      case 1: sp_bad.offset = 131; break;
+      case 2: sp_bad.offset = 852 - bpl + 1; break;
+      case 3: sp_bad.sampling_rate = 27000000; break;
+      case 4: sp_bad.synchronous = FALSE; break;
+      case 5: sp_bad.scanning = 525; break;
+      case 6: sp_bad.sampling_format = VBI_PIXFMT_RGB24; break;
+      default: break;
+    }
+    size_t rows = (size_t)(sp.count[0] + sp.count[1]);
+    size_t raw_size = rows * (size_t)bpl;
+    unsigned char* raw_img = (unsigned char*)malloc(raw_size ? raw_size : 1);
+    { Rng rr((uint64_t)plan.knob("xfer_seed") ^ 0x5151, "rawimg"); for (size_t i = 0; i < raw_size; i++) raw_img[i] = (unsigned char)rr.below(256); }
+    auto raw_row = [&](int line) -> long {  // row of the raw image holding this line, -1 outside
+      int f = line >= 313;
+      if (line < sp.start[f] || line >= sp.start[f] + sp.count[f]) return -1;
+      int r = line - sp.start[f];
+      return sp.interlaced ? r * 2 + f : (f ? sp.count[0] + r : r);
+    };
+
+    Cfg cfg;
+    int ts_cc = -1;
+    std::vector<Seg> segs;
+    int last_nz = 0;     // last defined line number of the last accepted frame with sliced lines
+    int chain_lines = 0; // lines of the frames that the demultiplexer may join into one
+    bool prev_rejected = false;
+    int frames_fed = 0, frames_accepted = 0;
+
+    auto wake_transport = [&] { if (st.transport_waiting && st.transport) { st.transport_waiting = false; sched.wake(st.transport); } };
+
+    // -- one frame through the multiplexer; returns acceptance
+    auto do_frame = [&](std::vector<Line> lines, int64_t pts, int iface, int mask_sel, int buf_sel, int rawmode, bool is_flush) -> bool {
+      unsigned mask = MASKS[((mask_sel % NMASKS) + NMASKS) % NMASKS];
+      rawmode = ((rawmode % 5) + 5) % 5;
+      if (rawmode == 4 && bad_kind == 0) rawmode = 1;
+      const unsigned char* raw_arg = (rawmode == 1 || rawmode == 3 || rawmode == 4) ? raw_img : nullptr;
+      const vbi_sampling_par* sp_arg = (rawmode == 1 || rawmode == 2) ? &sp : rawmode == 4 ? &sp_bad : nullptr;
+      auto included = [&](const Line& l) { return (SVC[l.svc].id & mask) != 0; };
+      // canonical form: undefined Teletext lines never lead the frame, at most four of them (see the
+      // comment at the round trip oracle), and never so many lines that a joined frame exceeds 64
+      {
+        bool seen_nz = false; int zeros = 0; int total = chain_lines;
+        std::vector<Line> keep;
+        for (auto& l : lines) {
+          bool inc = included(l) && l.cls() != C_RAW;
+          if (inc && l.cls() == C_TTX && l.line == 0) {
+            if (!seen_nz || zeros >= 4 || total >= 58) { ctx.count("dropped_zero_line"); continue; }
+            zeros++;
+          }
+          if (inc && l.line != 0) seen_nz = true;
+          if (inc) total++;
+          keep.push_back(l);
+        }
+        lines.swap(keep);
+      }
+      size_t n = lines.size();
+      // ---- verdict from the documented rules
+      Verdict v = V_ACCEPT; std::string reason = "valid";
+      auto reject = [&](const char* why) { if (v != V_REJECT) { v = V_REJECT; reason = why; } };
+      auto either = [&](const char* why) { if (v == V_ACCEPT) { v = V_EITHER; reason = why; } };
+      if (sp_arg == &sp_bad) reject("invalid sampling parameters");
+      {
+        int last_inc = 0, last_all = 0;
+        for (auto& l : lines) {
+          if (l.line <= 0) continue;
+          if (included(l)) { if (l.line <= last_inc) reject("lines not in ascending order"); last_inc = l.line; }
+          // a line outside the service mask "is discarded without further checks" (API text) — the
+          // standard's ordering rule cannot apply to a line that is not encoded, but the statement is silent
+          if (l.line <= last_all) either("masked-out line out of order");
+          last_all = l.line;
+        }
+      }
+      std::vector<Line> exp_lines;  // what the packet has to carry
+      int64_t need_lo = 46, need_hi = 46;
+      bool fx = fixed_di(cfg.di);
+      for (auto& l : lines) {
+        if (!included(l)) continue;
+        Cls c = l.cls();
+        if (c == C_BAD || c == C_NONE) { reject("service cannot be encoded"); continue; }
+        if (!line_ok_for(c, l.line)) { reject("line number not permitted for the service"); continue; }
+        if (c == C_RAW) {
+          if (!raw_arg) { reject("raw line without raw data"); continue; }
+          if (!sp_arg) { reject("raw line without sampling parameters"); continue; }
+          if (raw_row(l.line) < 0) { reject("raw line outside the raw image"); continue; }
+          if (fx) { need_lo += 46 * ((bpl + 39) / 40); need_hi += 46 * ((bpl + 39) / 40); }
+          else { need_lo += bpl + 6 * ((bpl + 250) / 251); need_hi += bpl + 6 * ((bpl + 250) / 251) + 8; }
+        } else {
+          int sz = fx ? 46 : c == C_TTX ? 46 : c == C_VPS ? 16 : 5;
+          need_lo += sz; need_hi += sz;
+        }
+        exp_lines.push_back(l);
+      }
+      if (need_lo > (int64_t)cfg.max) reject("frame larger than the maximum PES packet size");
+      else if (need_hi > (int64_t)cfg.max) either("raw segmentation decides whether the frame fits");
+      if (n == 0) either("empty frame: vbi_dvb_mux_feed and vbi_dvb_mux_cor are documented differently");
+      bool use_cor = (iface & 1) || mux_nocb;
+
+      // ---- the call
+      vbi_sliced* arr = (vbi_sliced*)malloc(n ? n * sizeof(vbi_sliced) : 1);
+      for (size_t i = 0; i < n; i++) {
+        memset(&arr[i], 0xEE, sizeof arr[i]);
+        arr[i].id = SVC[lines[i].svc].id; arr[i].line = (uint32_t)lines[i].line;
+        if (lines[i].cls() != C_RAW) memcpy(arr[i].data, lines[i].data.data(), std::min<size_t>(lines[i].data.size(), sizeof arr[i].data));
+      }
+      st.frame_bytes.clear();
+      bool ok = false;
+      frames_fed++;
+      ctx.log("frame %d: %zu lines pts=%llx mask=%x iface=%s di=%02x size=%u..%u rawmode=%d expect=%s (%s)", frames_fed, n, (unsigned long long)pts, mask,
+              use_cor ? "cor" : "feed", cfg.di, cfg.min, cfg.max, rawmode, v == V_ACCEPT ? "accept" : v == V_REJECT ? "reject" : "either", reason.c_str());
+      if (mux_nocb && !(iface & 1)) {
+        // without a callback vbi_dvb_mux_feed has to fail and emit nothing
+        budget_begin("vbi_dvb_mux_feed", 20000000);
+        vbi_bool r;
+        { SutScope ss; st.in_feed = true; r = vbi_dvb_mux_feed(st.mx, arr, (unsigned)n, mask, raw_arg, sp_arg, pts); st.in_feed = false; }
+        budget_end();
+        ctx.count("feed_without_callback");
+        if (r) ctx.fail("oracle:mux-feed-nocb", "vbi_dvb_mux_feed returned TRUE although the multiplexer has no callback");
+      }
+      if (!use_cor) {
+        budget_begin("vbi_dvb_mux_feed", 20000000);
+        vbi_bool r;
+        { SutScope ss; st.in_feed = true; r = vbi_dvb_mux_feed(st.mx, arr, (unsigned)n, mask, raw_arg, sp_arg, pts); st.in_feed = false; }
+        budget_end();
+        ok = r;
+        ctx.log("feed -> %d, %zu bytes", (int)r, st.frame_bytes.size());
+        wake_transport();
+        sched.yield();
+      } else {
+        const vbi_sliced* sl = arr; unsigned left = (unsigned)n;
+        for (int k = 0; !ctx.failed; k++) {
+          size_t size = cor_bufsize(buf_sel, k);
+          unsigned char* buf = (unsigned char*)malloc(size);
+          memset(buf, 0xA5, size);
+          uint8_t* bp = buf; unsigned bl = (unsigned)size;
+          const vbi_sliced* sl0 = sl; unsigned left0 = left;
+          budget_begin("vbi_dvb_mux_cor", 20000000);
+          vbi_bool r;
+          { SutScope ss; r = vbi_dvb_mux_cor(st.mx, &bp, &bl, &sl, &left, mask, raw_arg, sp_arg, pts); }
+          budget_end();
+          if (!r) {
+            bool touched = bp != buf || bl != size;
+            for (size_t i = 0; i < size && !touched; i++) if (buf[i] != 0xA5) touched = true;
+            if (touched) ctx.fail("oracle:mux-reject-output", "vbi_dvb_mux_cor returned FALSE but changed the output buffer (pointer +%ld, left %u of %zu)", (long)(bp - buf), bl, size);
+            else if (k > 0) ctx.fail("oracle:mux-cor-midpacket", "vbi_dvb_mux_cor returned FALSE in call %d while handing out an accepted packet", k);
+            ctx.log("cor call %d -> FALSE", k);
+            free(buf);
+            break;
+          }
+          size_t wrote = (size_t)(bp - buf);
+          if (bp < buf || wrote > size || bl != size - wrote) { ctx.fail("oracle:mux-cor-pointer", "vbi_dvb_mux_cor: buffer +%ld, buffer_left %u, size %zu", (long)(bp - buf), bl, size); free(buf); break; }
+          for (size_t i = wrote; i < size; i++) if (buf[i] != 0xA5) { ctx.fail("oracle:mux-cor-pointer", "vbi_dvb_mux_cor wrote beyond the returned position"); break; }
+          st.frame_bytes.append((const char*)buf, wrote);
+          st.pipe.append((const char*)buf, wrote);
+          free(buf);
+          if (k < 40 || left == 0) ctx.log("cor call %d buf %zu -> wrote %zu, sliced_left %u", k, size, wrote, left);
+          if (left == 0) {
+            ok = true;
+            if (sl != arr + n) ctx.fail("oracle:mux-cor-pointer", "vbi_dvb_mux_cor finished the frame but *sliced moved by %ld of %zu", (long)(sl - arr), n);
+            if (n == 0) ok = true;
+            wake_transport(); sched.yield();
+            break;
+          }
+          ctx.count("cor_partial_outputs");
+          if (sl != sl0 || left != left0) { ctx.fail("oracle:mux-cor-pointer", "vbi_dvb_mux_cor consumed sliced lines (%u -> %u) before the packet was handed out", left0, left); break; }
+          if (bl != 0 || wrote == 0) { ctx.fail("oracle:mux-cor-short", "vbi_dvb_mux_cor returned with %u bytes of buffer unused (wrote %zu) although the frame is not finished", bl, wrote); break; }
+          wake_transport(); sched.yield();
+        }
+      }
+      free(arr);
+      if (ctx.failed) return false;
+
+      // ---- acceptance against the documented rules
+      if (!ok) {
+        ctx.count("frames_rejected");
+        ctx.count("rejected_" + std::string(v == V_REJECT ? reason : v == V_EITHER ? "unspecified" : "VALID"));
+        if (!st.frame_bytes.empty()) { ctx.fail("oracle:mux-reject-output", "frame %d rejected but %zu bytes were emitted", frames_fed, st.frame_bytes.size()); return false; }
+        if (v == V_ACCEPT) {
+          ctx.fail(prev_rejected || is_flush ? "oracle:mux-unusable" : "oracle:mux-rejected-valid",
+                   "frame %d (%zu lines, mask %x, %s, data_identifier %02x, max size %u%s) is valid but was rejected%s", frames_fed, n, mask, use_cor ? "cor" : "feed", cfg.di, cfg.max,
+                   is_flush ? ", closing frame of the harness" : "", prev_rejected ? "; the previous frame was rejected for its content" : "");
+          return false;
+        }
+        prev_rejected = true;
+        return false;
+      }
+      if (v == V_REJECT) { ctx.fail("oracle:mux-accepted-invalid", "frame %d accepted (%zu bytes emitted) although: %s", frames_fed, st.frame_bytes.size(), reason.c_str()); return false; }
+      prev_rejected = false;
+      frames_accepted++;
+      ctx.count("frames_accepted");
+      if (v == V_EITHER) ctx.count("accepted_unspecified");
+
+      // ---- conformance of the emitted bytes
+      std::string err; Bytes pes;
+      if (st.ts) { if (!parse_ts(st.frame_bytes, st.pid, ts_cc, pes, err)) { ctx.fail("oracle:ts-syntax", "frame %d: %s", frames_fed, err.c_str()); return false; } }
+      else pes = st.frame_bytes;
+      PPes pp;
+      if (!parse_pes(pes, pp, err)) { ctx.fail("oracle:pes-syntax", "frame %d: %s", frames_fed, err.c_str()); return false; }
+      if (pp.size < cfg.min || pp.size > cfg.max) { ctx.fail("oracle:pes-size", "frame %d: PES packet of %zu bytes, configured range %u..%u", frames_fed, pp.size, cfg.min, cfg.max); return false; }
+      if (pp.data_identifier != cfg.di) { ctx.fail("oracle:pes-data-identifier", "frame %d: data_identifier %02x, configured %02x", frames_fed, pp.data_identifier, cfg.di); return false; }
+      if (pp.pts != (pts & PTS_MASK)) { ctx.fail("oracle:pes-pts", "frame %d: PTS %llx encoded, %llx given", frames_fed, (unsigned long long)pp.pts, (unsigned long long)(pts & PTS_MASK)); return false; }
+      if (pp.stuffed_inside) ctx.count("stuffing_byte_inside_unit");
+      size_t d = 0;
+      for (size_t i = 0; i < exp_lines.size(); i++) {
+        const Line& e = exp_lines[i];
+        if (d >= pp.du.size()) { ctx.fail("oracle:pes-lines", "frame %d: input line %zu (line %d) is missing from the packet (%zu data units)", frames_fed, i, e.line, pp.du.size()); return false; }
+        if (e.cls() == C_RAW) {
+          long row = raw_row(e.line);
+          unsigned at = (unsigned)(off - 132); size_t got = 0; bool first = true;
+          for (;; d++) {
+            if (d >= pp.du.size() || pp.du[d].id != 0xC6) { ctx.fail("oracle:pes-raw", "frame %d: raw line %d: segments end after %zu of %d samples", frames_fed, e.line, got, bpl); return false; }
+            const PDu& u = pp.du[d];
+            if (u.line() != e.line) { ctx.fail("oracle:pes-raw", "frame %d: raw line %d encoded as line %d", frames_fed, e.line, u.line()); return false; }
+            if (u.first != first) { ctx.fail("oracle:pes-raw", "frame %d: raw line %d: first_segment_flag %d on segment at %zu", frames_fed, e.line, u.first, got); return false; }
+            if (u.fpp != at) { ctx.fail("oracle:pes-raw", "frame %d: raw line %d: first_pixel_position %u, expected %u", frames_fed, e.line, u.fpp, at); return false; }
+            if (got + u.npix > (size_t)bpl || memcmp(u.data.data(), raw_img + (size_t)row * (size_t)bpl + got, u.npix)) { ctx.fail("oracle:pes-raw", "frame %d: raw line %d: samples at %zu differ from the raw image", frames_fed, e.line, got); return false; }
+            got += u.npix; at += u.npix; first = false;
+            bool last = got == (size_t)bpl;
+            if (u.last != last) { ctx.fail("oracle:pes-raw", "frame %d: raw line %d: last_segment_flag %d after %zu of %d samples", frames_fed, e.line, u.last, got, bpl); return false; }
+            if (last) { d++; break; }
+          }
+          ctx.count("raw_lines_encoded");
+          continue;
+        }
+        const PDu& u = pp.du[d++];
+        Cls uc = (u.id == 0x02 || u.id == 0x03) ? C_TTX : u.id == 0xC3 ? C_VPS : u.id == 0xC4 ? C_WSS : u.id == 0xC5 ? C_CC : C_RAW;
+        if (uc != e.cls()) { ctx.fail("oracle:pes-lines", "frame %d: input line %zu (line %d, service %x) encoded with data_unit_id %02x", frames_fed, i, e.line, SVC[e.svc].id, u.id); return false; }
+        // an undefined line (line_offset 0) still has a field parity; which one the statement does not say
+        if (u.line() != e.line) { ctx.fail("oracle:pes-lines", "frame %d: input line %d encoded as field_parity %d line_offset %u", frames_fed, e.line, u.parity, u.offset); return false; }
+        Bytes want = e.data; if (e.cls() == C_WSS) want[1] = (char)(want[1] & 0x3F);
+        if (u.data != want) { ctx.fail("oracle:pes-payload", "frame %d: line %d (unit %02x): payload %s.. differs from the input %s..", frames_fed, e.line, u.id, hex(u.data.substr(0, 8)).c_str(), hex(want.substr(0, 8)).c_str()); return false; }
+      }
+      if (d != pp.du.size()) { ctx.fail("oracle:pes-lines", "frame %d: packet carries %zu data units more than the %zu input lines (next id %02x line %d)", frames_fed, pp.du.size() - d, exp_lines.size(), pp.du[d].id, pp.du[d].line()); return false; }
+
+      // ---- what the demultiplexer has to make of it
+      Seg sg; sg.pts = pts & PTS_MASK; sg.may_merge = false;
+      for (auto& l : exp_lines) if (l.cls() != C_RAW) sg.lines.push_back(l);
+      if (sg.lines.empty() && !is_flush) { ctx.count("accepted_without_sliced_lines"); segs.push_back(sg); }
+      if (!sg.lines.empty() && !is_flush) {
+        int first = sg.lines[0].line;
+        // frames are recognisable by a non-increasing line number; if the first line is above the
+        // last line of the previous frame the two cannot be told apart: joined or separate, both accepted
+        sg.may_merge = last_nz > 0 && first > last_nz;
+        if (sg.may_merge) { ctx.count("unrecognisable_boundary"); chain_lines += (int)sg.lines.size(); } else chain_lines = (int)sg.lines.size();
+        for (auto& l : sg.lines) if (l.line) last_nz = l.line;
+        segs.push_back(sg);
+      }
+      return true;
+    };
+
+    // ---- producer
+    sched.spawn("producer", [&] {
+      std::vector<Line> pending;
+      int counter = 0;
+      for (auto& op : plan.ops) {
+        if (ctx.failed) break;
+        if (op.kind == "ln") {
+          Line l; l.line = (int)(llabs(op.arg(0)) % 700); l.svc = (int)(llabs(op.arg(1)) % NSVC);
+          l.data = gen_payload(SVC[l.svc].nbytes, (uint64_t)op.arg(2), pay_mode, counter++);
+          if (pending.size() < 80) pending.push_back(l);
+        } else if (op.kind == "frame") {
+          std::vector<Line> lines; lines.swap(pending);
+          do_frame(lines, op.arg(0), (int)(llabs(op.arg(1)) % 2), (int)(llabs(op.arg(2)) % NMASKS), (int)(llabs(op.arg(3)) % 600), (int)(llabs(op.arg(4)) % 5), false);
+        } else if (op.kind == "cfg") {
+          if (llabs(op.arg(0)) % 2 == 0) {
+            int d = DI_TABLE[llabs(op.arg(1)) % NDI];
+            vbi_bool r; unsigned now;
+            { SutScope ss; r = vbi_dvb_mux_set_data_identifier(st.mx, (unsigned)d); now = vbi_dvb_mux_get_data_identifier(st.mx); }
+            ctx.log("set_data_identifier %x -> %d, now %x", d, (int)r, now);
+            if ((bool)r != di_valid(d)) { ctx.fail("oracle:mux-config", "vbi_dvb_mux_set_data_identifier(0x%x) returned %d", d, (int)r); break; }
+            if (r) cfg.di = (unsigned)d;
+            if (now != cfg.di) { ctx.fail("oracle:mux-config", "data_identifier reads %x, expected %x", now, cfg.di); break; }
+            ctx.count(r ? "cfg_data_identifier" : "cfg_data_identifier_refused");
+          } else {
+            unsigned mn = (unsigned)(llabs(op.arg(1)) % 70000), mx = (unsigned)(llabs(op.arg(2)) % 70000);
+            vbi_bool r; unsigned gmn, gmx;
+            { SutScope ss; r = vbi_dvb_mux_set_pes_packet_size(st.mx, mn, mx); gmn = vbi_dvb_mux_get_min_pes_packet_size(st.mx); gmx = vbi_dvb_mux_get_max_pes_packet_size(st.mx); }
+            // documented: multiples of 184 in 184..65504, min rounded up, max rounded down, max raised to min
+            unsigned emn = mn < 184 ? 184 : mn > 65504 ? 65504 : (mn + 183) / 184 * 184;
+            unsigned emx = mx < emn ? emn : mx > 65504 ? 65504 : mx / 184 * 184;
+            if (emx < emn) emx = emn;
+            ctx.log("set_pes_packet_size %u %u -> %d, now %u..%u", mn, mx, (int)r, gmn, gmx);
+            if (!r || gmn != emn || gmx != emx) { ctx.fail("oracle:mux-config", "vbi_dvb_mux_set_pes_packet_size(%u,%u) -> %d, sizes %u..%u, documented %u..%u", mn, mx, (int)r, gmn, gmx, emn, emx); break; }
+            cfg.min = emn; cfg.max = emx;
+            ctx.count("cfg_packet_size");
+          }
+        }
+      }
+      // closing frame: makes the demultiplexer hand out the last real frame; also proves the multiplexer usable
+      if (!ctx.failed) {
+        Line l; l.line = 7; l.svc = 0; l.data = gen_payload(42, 4242, 4, 9999);
+        if (cfg.max < 184) cfg.max = 184;
+        do_frame({l}, 0x1ABCDEF01ll, (int)(plan.knob("xfer_seed") & 1), 0, 4, 0, true);
+      }
+      st.producer_done = true;
+      wake_transport();
+    });
+
+    // ---- transport: pipe -> demultiplexer, in pieces
+    uint64_t xseed = (uint64_t)plan.knob("xfer_seed");
+    int xmode = (int)(llabs(plan.knob("xfer_mode")) % 6);
+    st.transport = sched.spawn("transport", [&] {
+      uint64_t k = 0;
+      for (;;) {
+        if (ctx.failed) return;
+        size_t avail = st.pipe.size() - st.pipe_rd;
+        if (avail == 0) {
+          if (st.producer_done) return;
+          st.transport_waiting = true; sched.block();
+          continue;
+        }
+        uint64_t h = hash_mix(xseed, k++);
+        size_t want;
+        switch (xmode) {
+          case 0: want = 1; break;
+          case 1: want = 1 + h % 9; break;
+          case 2: { static const size_t s[] = {3, 4, 6, 9, 10, 45, 46, 47, 48, 183, 184, 187, 188, 189, 197}; want = s[h % 15]; break; }
+          case 3: want = avail; break;
+          case 4: want = 1 + h % 700; break;
+          default: want = (h & 1) ? 1 + (h >> 1) % 5 : 1 + (h >> 1) % 400; break;
+        }
+        if (avail > 8192) want = std::max(want, avail / 64);  // huge packets are not fed byte by byte
+        if (want > avail) want = avail;
+        sink.feed((const unsigned char*)st.pipe.data() + st.pipe_rd, want);
+        st.pipe_rd += want;
+        if (st.pipe_rd > 65536) { st.pipe.erase(0, st.pipe_rd); st.pipe_rd = 0; }
+        sched.yield();
+      }
+    });
+    int rc = sched.run(20000000);
+    if (rc == 2) ctx.fail("harness:budget", "scheduler budget exhausted");
+    if (rc == 1 && !ctx.failed) ctx.fail("harness:deadlock", "tasks blocked");
+    ctx.state(sched.interleaving_hash());
+
+    // ---- round trip oracle: deliveries = accepted frames.  Neighbours without a recognisable boundary may
+    // arrive joined; an accepted frame without sliced lines (empty, all masked, raw only) has no line
+    // number at all, so it is invisible: the following frame may carry its PTS (EN 301 775 lets a frame
+    // span several PES packets and the first one determines the PTS).
+    if (!ctx.failed) {
+      size_t s = 0;
+      for (size_t j = 0; j < sink.got.size() && !ctx.failed; j++) {
+        const GotFrame& g = sink.got[j];
+        size_t ne = s;
+        while (ne < segs.size() && segs[ne].lines.empty()) ne++;
+        if (ne >= segs.size()) { ctx.fail("oracle:rt-spurious", "delivery %zu %s but all accepted frames with lines (%zu) were already delivered", j, frame_str(g).c_str(), segs.size()); break; }
+        size_t e = ne, total = segs[ne].lines.size();
+        while (total < g.lines.size()) {
+          size_t e2 = e + 1;
+          while (e2 < segs.size() && segs[e2].lines.empty()) e2++;
+          if (e2 >= segs.size() || !segs[e2].may_merge) break;
+          e = e2; total += segs[e].lines.size();
+        }
+        if (total != g.lines.size()) {
+          ctx.fail("oracle:rt-lines", "delivery %zu %s: accepted frame %zu has %zu lines (pts %llx, first line %d)%s", j, frame_str(g).c_str(), ne, segs[ne].lines.size(),
+                   (unsigned long long)segs[ne].pts, segs[ne].lines[0].line, e > ne ? " (joining the unrecognisable followers does not fit either)" : "");
+          break;
+        }
+        if (e > ne) ctx.count("frames_joined");
+        bool pts_ok = false;
+        for (size_t t = s; t <= ne; t++) if (g.pts == segs[t].pts) pts_ok = true;
+        if (!pts_ok) { ctx.fail("oracle:rt-pts", "delivery %zu %s: frame was sent with PTS %llx", j, frame_str(g).c_str(), (unsigned long long)segs[ne].pts); break; }
+        if (g.pts != segs[ne].pts) ctx.count("pts_of_preceding_empty_frame");
+        size_t q = 0;
+        for (size_t t = ne; t <= e && !ctx.failed; t++)
+          for (auto& l : segs[t].lines) {
+            std::string why;
+            if (!line_matches(l, g.lines[q], why)) { ctx.fail("oracle:rt-line", "delivery %zu, element %zu: %s", j, q, why.c_str()); break; }
+            q++;
+          }
+        s = e + 1;
+      }
+      while (!ctx.failed && s < segs.size() && segs[s].lines.empty()) s++;
+      if (!ctx.failed && s < segs.size())
+        ctx.fail("oracle:rt-lost", "accepted frame %zu of %zu (pts %llx, %zu lines, first line %d) was never delivered by the demultiplexer (%zu deliveries)", s, segs.size(),
+                 (unsigned long long)segs[s].pts, segs[s].lines.size(), segs[s].lines[0].line, sink.got.size());
+    }
+    { SutScope ss; vbi_dvb_mux_delete(st.mx); }
+    sink.close();
+    free(raw_img);
+    if (!ctx.failed && alloc_track_available() && alloc_live_blocks() != 0)
+      ctx.fail("leak", "%zu blocks (%zu bytes; %s) still allocated after delete", alloc_live_blocks(), alloc_live_bytes(), alloc_live_summary().c_str());
+    ctx.count("deliveries", (int64_t)sink.got.size());
+    ctx.count("demux_calls", (int64_t)sink.calls);
+    ctx.nontrivial = frames_accepted >= 3 && sink.got.size() >= 2;
+    ctx.sim_seconds = frames_accepted * 0.04;
+  }
+};
+ZSIM_REGISTER_WORLD(C06)
+}  // namespace
